@@ -284,6 +284,9 @@ void run_gs(const char* type, std::true_type) {
             for (unsigned i = 0; i < 2 * SPAN; ++i) { U u = gen_val<U>(r, 3, i); std::memcpy(&data[i], &u, sizeof u); }
             std::array<IT, V::width> idx; mkidx(idx, t, false);
             uint32_t n = ns[t % ns.size()];
+            // lanes at or beyond n are not part of the gather: give them indices far outside the buffer, so an
+            // implementation that reads them anyway (and masks afterwards) faults
+            for (unsigned i = (n < W ? n : W); i < W; ++i) idx[i] = (IT)((t & 1) ? (IT(1) << (sizeof(IT) * 8 - 6)) : -(IT(1) << (sizeof(IT) * 8 - 6)));
             std::array<U, V::width> got; volatile bool ok = false;
             uint32_t cls = (n > 255 ? 255 : n) | ((t % 4) << 8);
             VK_GUARDED(cls, ("n=" + std::to_string(n) + ",idxmode=" + std::to_string(t % 4)), { got = raw_lanes<V>(avel::gather<V>(mid, IV(idx), n)); ok = true; });
@@ -305,6 +308,7 @@ void run_gs(const char* type, std::true_type) {
             for (unsigned i = 0; i < 2 * SPAN; ++i) { U u = gen_val<U>(r, 3, i); std::memcpy(&data[i], &u, sizeof u); }
             std::array<IT, V::width> idx; mkidx(idx, t, false);
             uint32_t n = t % (W + 1);
+            for (unsigned i = n; i < W; ++i) idx[i] = (IT)((t & 1) ? (IT(1) << (sizeof(IT) * 8 - 6)) : -(IT(1) << (sizeof(IT) * 8 - 6)));
             std::array<U, V::width> got; volatile bool ok = false;
             uint32_t cls = n | ((t % 4) << 8);
             VK_GUARDED(cls, ("N=" + std::to_string(n)), { got = raw_lanes<V>(gct[n](mid, IV(idx))); ok = true; });
@@ -329,6 +333,7 @@ void run_gs(const char* type, std::true_type) {
             for (unsigned i = 0; i < W; ++i) { lanes[i] = gen_val<U>(r, t % 4, i); unsigned char b[sizeof(U)]; std::memcpy(b, &lanes[i], sizeof(U)); for (auto& x : b) if (x == SENT) x = 0x5A; std::memcpy(&lanes[i], b, sizeof(U)); }
             V v = from_raw<V>(lanes);
             uint32_t n = form == 0 ? ns[t % ns.size()] : t % (W + 1);
+            for (unsigned i = (n < W ? n : W); i < W; ++i) idx[i] = (IT)((t & 1) ? (IT(1) << (sizeof(IT) * 8 - 6)) : -(IT(1) << (sizeof(IT) * 8 - 6)));
             volatile bool ok = false;
             uint32_t cls = (n > 255 ? 255 : n) | ((t % 3) << 8);
             VK_GUARDED(cls, ("n=" + std::to_string(n)), { if (form == 0) avel::scatter(mid, v, IV(idx), n); else sct[n](mid, v, IV(idx)); ok = true; });
